@@ -390,6 +390,11 @@ struct tree_sys
       VRT_CHECK(res.has_value() == !r.c.empty(), "tree:pop_back:presence", "pop_back presence wrong");
       if (res.has_value() && !r.c.empty())
       {
+        {
+          bool const save = links_ok;
+          verify_links(res.get_unsafe(), r.c.back(), nullptr, "pop_back_result");
+          links_ok = save && links_ok;
+        }
         set_spare(std::move(res.get_unsafe()), r.c.back());
         r.c.pop_back();
       }
@@ -401,6 +406,11 @@ struct tree_sys
       VRT_CHECK(res.has_value() == !r.c.empty(), "tree:pop_front:presence", "pop_front presence wrong");
       if (res.has_value() && !r.c.empty())
       {
+        {
+          bool const save = links_ok;
+          verify_links(res.get_unsafe(), r.c.front(), nullptr, "pop_front_result");
+          links_ok = save && links_ok;
+        }
         set_spare(std::move(res.get_unsafe()), r.c.front());
         r.c.erase(r.c.begin());
       }
@@ -409,6 +419,12 @@ struct tree_sys
     case RELEASE:
     {
       tree res = t.release(nth(t, o.b));
+      // the returned tree is checked as returned, before any further move could repair its links
+      {
+        bool const save = links_ok;
+        verify_links(res, r.c[static_cast<std::size_t>(o.b)], nullptr, "release_result");
+        links_ok = save && links_ok;
+      }
       set_spare(std::move(res), r.c[static_cast<std::size_t>(o.b)]);
       r.c.erase(r.c.begin() + o.b);
       break;
